@@ -229,3 +229,53 @@ Proof.
   destruct (lwalk b fs l [c]) as [e|l1 n1 b1]; [reflexivity|].
   destruct n1; try reflexivity. exfalso. exact (Hnd l1 b1 eq_refl).
 Qed.
+
+(* ---------------------------------------------------------------- stat never ends at a link; lstat and stat *)
+Lemma walk_go_not_link : forall fs b,
+  (forall l t rest l' t' b', link_k b fs l t rest <> RAt l' (NLink t') b') ->
+  forall cs l l' t' b', walk_go (link_k b fs) fs b l cs <> RAt l' (NLink t') b'.
+Proof.
+  intros fs b Hk. induction cs as [|c cs IH]; intros l l' t' b'; cbn [walk_go]; [discriminate|].
+  destruct (is_dot c); [apply IH|]. destruct (is_dotdot c); [apply IH|].
+  destruct (llookup fs (l ++ [c])) as [n0|]; [|discriminate].
+  destruct n0; try (destruct cs; discriminate); [apply IH|apply Hk].
+Qed.
+
+Lemma lwalk_not_link : forall fs b cs l l' t' b', lwalk b fs l cs <> RAt l' (NLink t') b'.
+Proof.
+  intros fs. induction b as [|b IHb]; intros cs l l' t' b'; rewrite lwalk_eq; apply walk_go_not_link;
+    intros l0 t rest l1 t1 b1; cbn [link_k]; [discriminate|]. destruct t; [discriminate|]. apply IHb.
+Qed.
+
+(* unless the last name is a link, lstat answers exactly what stat answers (errors included) *)
+Lemma lstat_l_stat_l : forall B fs cwd s,
+  (forall l t b, lstat_l B fs cwd s <> RAt l (NLink t) b) -> stat_l B fs cwd s = lstat_l B fs cwd s.
+Proof.
+  intros B fs cwd s H. unfold stat_l, lstat_l in *. destruct s as [|c0 s']; [reflexivity|].
+  set (s := c0 :: s') in *.
+  destruct (rev (pcomps s)) as [|lastc rparents] eqn:R.
+  - apply (f_equal (@rev name)) in R. rewrite rev_involutive in R. rewrite R. cbn [rev].
+    exfalso. unfold pcomps in R. apply app_eq_nil in R. destruct R as [R1 R2].
+    unfold s in R1, R2. unfold trailing_slash in R2.
+    destruct (rev (c0 :: s')) as [|x y] eqn:Rv.
+    + apply (f_equal (@length Z)) in Rv. rewrite rev_length in Rv. discriminate Rv.
+    + destruct (x =? SLASH) eqn:Ex; [discriminate R2|].
+      (* the last character is not a separator: there is a name *)
+      assert (Es : c0 :: s' = rev y ++ [x]) by (rewrite <- (rev_involutive (c0 :: s')), Rv; reflexivity).
+      unfold components in R1. rewrite Es in R1.
+      assert (G : forall p cur, split_acc (p ++ [x]) cur <> []).
+      { induction p as [|a p IHp]; intro cur; cbn [app split_acc].
+        - rewrite Ex. discriminate.
+        - destruct (a =? SLASH); [destruct cur; [apply IHp|discriminate]|apply IHp]. }
+      exact (G _ _ R1).
+  - assert (Ep : pcomps s = rev rparents ++ [lastc]).
+    { rewrite <- (rev_involutive (pcomps s)), R. reflexivity. }
+    rewrite Ep, lwalk_app.
+    destruct (lwalk B fs (lstart s cwd) (rev rparents)) as [e|l n b] eqn:W; cbn [then_walk]; [reflexivity|].
+    destruct n; try reflexivity.
+    destruct (is_dot lastc) eqn:D1; [apply lwalk_one_dot; exact D1|].
+    destruct (is_dotdot lastc) eqn:D2; [apply lwalk_one_dotdot; assumption|].
+    destruct (llookup fs (l ++ [lastc])) as [n0|] eqn:L; [|apply lwalk_one_none; assumption].
+    rewrite lwalk_eq. cbn [walk_go]. rewrite D1, D2, L.
+    destruct n0; try reflexivity. exfalso. exact (H _ _ _ eq_refl).
+Qed.
